@@ -323,6 +323,15 @@ def gen_line_spec(sc, mac):
         f.write("/* generated: shell named by the first component of each IUPAC line macro name */\n"
                 "#ifndef SPEC_LINESHELL_H\n#define SPEC_LINESHELL_H\n"
                 "static const int SPEC_LINE_SHELL[%d] = {%s};\n#endif\n" % (len(shell_of), ", ".join(shell_of)))
+    # all nine shells that have Kissel XRF functions (C08 line dispatch)
+    nine = ["K", "L1", "L2", "L3", "M1", "M2", "M3", "M4", "M5"]
+    sh9 = []
+    for v, n in byslot:
+        m9 = re.match(r"^(K|L[123]|M[1-5])(?![0-9])", n)
+        sh9.append(m9.group(1) + "_SHELL" if m9 else "-1")
+    with open(os.path.join(d, "spec_lineshell9.h"), "w") as f:
+        f.write("/* generated: starting shell (K..M5, else -1) of each line macro, from its name */\n#ifndef SPEC_LINESHELL9_H\n#define SPEC_LINESHELL9_H\n"
+                "static const int SPEC_LINE_SHELL9[%d] = {%s};\n#endif\n" % (len(sh9), ", ".join(sh9)))
     # the hand-ordered L-beta member lists of harness/h_fluor.c must be exactly the name-derived set
     hf = os.path.join(os.path.dirname(os.path.dirname(os.path.abspath(__file__))), "harness", "h_fluor.c")
     if os.path.exists(hf):
